@@ -30,3 +30,11 @@ def check(A):
         S.get_request_rules(A, fl, 'C15')
     R.generate_id_rules(A, 'C15')
     R.driver_response_rules(A, 'C15')
+    # a poll response can only be built if every packet encodes to text on the text channel,
+    # whatever was cached on it before (rule shared with C01)
+    from . import C01
+    import copy
+    msg = A.model.const_value(A.model.module('packet'), 'MESSAGE')
+    sub = copy.copy(A)
+    sub.obligations = []
+    C01.encode_cases(A, C01.constructor_cases(sub, msg), prefix='C15')
